@@ -13,6 +13,9 @@ VERIF = os.path.dirname(os.path.dirname(os.path.abspath(__file__)))
 KNOWN_FINDINGS = os.path.join(VERIF, "known_findings.json")
 
 
+ALL_RULES: list = []  # every Rule constructed in this process, in order (lets the driver keep the verdicts already reached when a later rule cannot be analysed)
+
+
 class Rule:
     """One rule of one property: collects obligations."""
 
@@ -24,6 +27,7 @@ class Rule:
         self.necessary = necessary
         self.obligations: list[dict] = []
         self.notes: list[str] = []
+        ALL_RULES.append(self)
 
     def ok(self, construct: str, what: str, loc: str = "", **extra):
         self.obligations.append({"rule": self.rid, "construct": construct, "what": what, "loc": loc,
@@ -113,10 +117,13 @@ def _match_known(ob, known):
 
 
 def finish(prop: str, tier: str, rules: list[Rule], started: float, explanation: str,
-           assumptions: list[str], stats: dict, not_decided: str, out=print) -> int:
+           assumptions: list[str], stats: dict, not_decided: str, out=print, partial: str = "") -> int:
+    """`partial`: the analysis stopped early with this error; the obligations evaluated before it are still what they are.
+    A failed one among them is reported (exit 1); without one the run stays an ANALYSIS-ERROR (exit 2)."""
     known = load_known()
-    for r in rules:
-        r.require_floor()
+    if not partial:
+        for r in rules:
+            r.require_floor()
     obligations = [o for r in rules for o in r.obligations]
     failed = [o for o in obligations if o["verdict"] == "FAILED"]
     new_viol, matched = [], []
@@ -223,9 +230,13 @@ def finish(prop: str, tier: str, rules: list[Rule], started: float, explanation:
         "wall_s": round(time.time() - started, 3),
         "violations": len(new_viol),
     }
+    if partial:
+        evidence["coverage"]["analysis_stopped_early"] = partial
     with open(os.path.join(ev_dir, f"{prop}.json"), "w", encoding="utf-8") as f:
         json.dump(evidence, f, indent=1, default=str)
     out(f"{prop} [{tier}] rules={len(rules)} obligations={len(obligations)} "
         f"discharged={evidence['coverage']['discharged']} known={len(matched)} violations={len(new_viol)} "
         f"wall={evidence['wall_s']}s")
+    if partial:
+        return 1 if new_viol else 2
     return 1 if new_viol else 0
